@@ -71,6 +71,9 @@ pub struct ShardResult {
     pub distinct_layout_states: u64,
     pub distinct_layout_states_cap: u64,
     pub distinct_schedules: u64,
+    /// over layouts with a base of at most 10 bits: register states visited / states that exist
+    pub small_base_states_visited: u64,
+    pub small_base_states_possible: u64,
     pub setup_anomalies: u64,
     pub setup_anomaly_examples: Vec<String>,
     pub two_sided_panics: u64,
@@ -226,6 +229,7 @@ pub fn main(layouts_json: &str, entries: &[Entry]) -> i32 {
         if e.build.is_some() {
             res.builder_layouts += 1;
         }
+        let mut small_states: BTreeSet<u16> = BTreeSet::new();
         // narrow bases have a state space small enough to be covered densely: give them more runs
         let runs_l = if l.bits <= 8 { runs * 6 } else if l.bits <= 16 { runs * 2 } else { runs };
         for j in 0..runs_l {
@@ -277,6 +281,11 @@ pub fn main(layouts_json: &str, entries: &[Entry]) -> i32 {
                     }
                     if digests_out.is_some() {
                         digest_log.push(st.digest);
+                    }
+                    if l.bits <= 10 {
+                        for s in &st.states {
+                            small_states.insert(*s as u16);
+                        }
                     }
                     if states.len() < STATE_CAP {
                         for s in &st.states {
@@ -350,6 +359,10 @@ pub fn main(layouts_json: &str, entries: &[Entry]) -> i32 {
                     continue 'layouts;
                 }
             }
+        }
+        if l.bits <= 10 {
+            res.small_base_states_visited += small_states.len() as u64;
+            res.small_base_states_possible += 1u64 << l.bits;
         }
     }
     res.distinct_nontrivial = nontrivial_digests.len() as u64;
